@@ -24,16 +24,15 @@ def tier_opts(opts, tier):
     return out
 
 
-def run_gosym(entry, ovfile, tmp, tier, solver="z3"):
-    o = tier_opts(entry["opts"], tier)
-    if o.get("tier") == "thorough" and tier == "quick":
-        return None
-    out = os.path.join(tmp, entry["entry"] + ".json")
+def run_gosym_one(entry, ovfile, tmp, o, solver, fix, tag):
+    out = os.path.join(tmp, entry["entry"] + tag + ".json")
     cmd = [os.path.join(BIN, "gosym"), "-dir", REPO, "-overlay", ovfile, "-pkg", "./" + entry["pkg"], "-entry", entry["entry"],
            "-out", out, "-known", KNOWN_FILE, "-solver", solver]
     for k in ("unwind", "maxpaths", "wall", "concr-cap", "feas-timeout", "obl-timeout", "maxsteps"):
         if k in o:
             cmd += ["-" + k, o[k]]
+    if fix:
+        cmd += ["-fix", fix]
     t0 = time.time()
     r = run(cmd, env=GOENV)
     if r.returncode != 0 or not os.path.exists(out):
@@ -42,6 +41,71 @@ def run_gosym(entry, ovfile, tmp, tier, solver="z3"):
     res["stderr"] = r.stderr[-4000:]
     res["cmd_wall_s"] = time.time() - t0
     return res
+
+
+STATUS_RANK = {"unsat": 0, "unknown": 1, "sat": 2}
+
+
+def merge_results(parts):
+    """Merge the results of one harness run split over a Choose variable."""
+    parts = [p for p in parts if p is not None]
+    for p in parts:
+        if p.get("error"):
+            return p
+    res = dict(parts[0])
+    for k in ("paths", "forks", "instrs", "queries", "queries_sat", "queries_unsat", "queries_unknown", "solver_ms", "terms"):
+        res[k] = sum(p.get(k) or 0 for p in parts)
+    res["wall_ms"] = max(p.get("wall_ms") or 0 for p in parts)
+    for k in ("paths_ended", "paths_cut", "functions"):
+        d = {}
+        for p in parts:
+            for kk, vv in (p.get(k) or {}).items():
+                d[kk] = d.get(kk, 0) + vv
+        res[k] = d
+    covers, cm = {}, {}
+    for p in parts:
+        covers.update({k: v for k, v in (p.get("covers") or {}).items() if v})
+        for k, v in (p.get("cover_models") or {}).items():
+            cm.setdefault(k, v)
+    res["covers"], res["cover_models"] = covers, cm
+    obl = {}
+    order = []
+    for p in parts:
+        for o in p.get("obligations") or []:
+            if o["id"] not in obl:
+                obl[o["id"]] = o
+                order.append(o["id"])
+            elif STATUS_RANK.get(o["status"], 1) > STATUS_RANK.get(obl[o["id"]]["status"], 1):
+                obl[o["id"]] = o
+    res["obligations"] = [obl[i] for i in order]
+    inc = []
+    for p in parts:
+        for x in p.get("incomplete") or []:
+            if x not in inc:
+                inc.append(x)
+    res["incomplete"] = inc
+    res["complete"] = all(p.get("complete") for p in parts)
+    for k in ("assumes", "stubs", "inputs"):
+        u = []
+        for p in parts:
+            for x in p.get(k) or []:
+                if x not in u:
+                    u.append(x)
+        res[k] = u
+    res["split_parts"] = len(parts)
+    return res
+
+
+def gosym_jobs(entry, tier):
+    """Expand an entry into (opts, fix, tag) jobs; split=name:n runs one process per forced Choose value."""
+    o = tier_opts(entry["opts"], tier)
+    if o.get("tier") == "thorough" and tier == "quick":
+        return None, []
+    sp = o.get("split")
+    if not sp:
+        return o, [("", "")]
+    name, _, n = sp.partition(":")
+    return o, [("%s=%d" % (name, i), "_%s%d" % (name, i)) for i in range(int(n))]
 
 
 def build_replay_binary(pkg, entries, ovmap, tmp):
@@ -127,12 +191,16 @@ def _check(pid, tier, seed, entries, tmp, t0, level, extra_assumptions):
     known = load_known()
     results = []
     with ThreadPoolExecutor(max_workers=max(2, NCPU - 2)) as ex:
-        futs = [(e, ex.submit(run_gosym, e, ovfile, tmp, tier)) for e in entries]
-        for e, f in futs:
-            r = f.result()
-            if r is not None:
-                r["_entry"] = e
-                results.append(r)
+        futs = []
+        for e in entries:
+            o, jobs = gosym_jobs(e, tier)
+            if not jobs:
+                continue
+            futs.append((e, [ex.submit(run_gosym_one, e, ovfile, tmp, o, "z3", fix, tag) for fix, tag in jobs]))
+        for e, fs in futs:
+            r = merge_results([f.result() for f in fs])
+            r["_entry"] = e
+            results.append(r)
     errors, violations, knowns, unconfirmed = [], [], [], []
     # machinery problems
     for r in results:
